@@ -24,6 +24,8 @@ func checkC03(c *Ctx) {
 	c.Rule("C03-R5", "NewEventKey turns control runes and DEL into key codes (Ctrl modifier except Backspace/Tab/Esc/Enter)")
 	c.Rule("C03-R7", "the bytes of a key sequence reach the matcher as they were read (a chunk queued for the main loop owns its backing array)")
 	c.Expect("C03-R7", 1)
+	c.Rule("C03-R8", "the key matcher holds a sequence back while it may still complete: parseFunctionKey is all-or-nothing, consumes exactly the matched sequence, and its 'partial' answer over the key table only accumulates (a table entry of which the input is a proper prefix always answers partial)")
+	c.Expect("C03-R8", 2)
 	c.Rule("C03-R6", "the pending-Alt flag survives between scans: it is a field of the screen, set only where the collect loop consumes a lone ESC, and tested-and-cleared by the rune and function-key parsers and the expiry path")
 	c.Expect("C03-R6", 3)
 	c.Expect("C03-R1", 3)
@@ -185,6 +187,12 @@ func checkC03(c *Ctx) {
 	c03AltPrefix(c, p)
 	recogniserConflicts(c, p, db, "C03-R3")
 	checkChunkOwnership(c, p, "C03-R7")
+	for _, pi := range inputParsers(p) {
+		if pi.fn.Name() == "parseFunctionKey" {
+			c.asRule("C02-R9", "C03-R8", func() { c02Consumption(c, p, pi) })
+			c02PartialAccumulates(c, p, pi, "C03-R8")
+		}
+	}
 	c.extra["key_tables"] = map[string]interface{}{"entries": len(kt.tables), "registrar_calls_folded_max": kt.regSites, "capability_fields_read": len(kt.fieldsRead)}
 }
 
